@@ -81,5 +81,94 @@ theorem rb23 : RbAnc gLib 2 3 := by
     simp only [Option.map_some, Option.some.injEq] at h3
     exact .step (by simp) hf (by rw [h3]; simp) rb22
 
+/-! ### the component side of the example (for `included_first_git_partial`) -/
+
+/-- executable test of `TagsUnique` -/
+def tagsUniqueB (h : Hist Pins) : Bool :=
+  ((List.range h.commits.length).all fun c1 => (List.range h.commits.length).all fun c2 =>
+    match h.commits[c1]?, h.commits[c2]? with
+    | some cm1, some cm2 => c1 == c2 || cm1.tags.all (fun bn => !cm2.tags.contains bn)
+    | _, _ => true) &&
+  h.commits.all fun cm => !cm.tags.contains fakeNB
+
+theorem tagsUnique_of_B {h : Hist Pins} (hb : tagsUniqueB h = true) : TagsUnique h := by
+  simp only [tagsUniqueB, Bool.and_eq_true] at hb
+  obtain ⟨h1, h2⟩ := hb
+  constructor
+  · intro c1 c2 cm1 cm2 bn hc1 hc2 hb1 hb2
+    have l1 : c1 < h.commits.length := (List.getElem?_eq_some_iff.mp hc1).1
+    have l2 : c2 < h.commits.length := (List.getElem?_eq_some_iff.mp hc2).1
+    have := List.all_eq_true.mp (List.all_eq_true.mp h1 c1 (List.mem_range.mpr l1)) c2 (List.mem_range.mpr l2)
+    rw [hc1, hc2] at this
+    simp only [Bool.or_eq_true, beq_iff_eq] at this
+    rcases this with h3 | h3
+    · exact h3
+    · have := List.all_eq_true.mp h3 bn hb1
+      simp at this
+      exact absurd hb2 this
+  · intro c cm hc hf
+    have := List.all_eq_true.mp h2 cm (List.mem_of_getElem? hc)
+    simp at this
+    exact this hf
+
+theorem exLib_topo : exLib.Topo := Hist.topo_of_topoB _ (by decide)
+theorem exLib_window : exLib.InWindow := Hist.inWindow_of_B (by decide)
+theorem exLib_tagsUnique : TagsUnique exLib := tagsUnique_of_B (by decide +kernel)
+theorem gLib_len : gLib.rcs.length ≤ Gen.Ghist.fakeStart := by decide +kernel
+def bLib : Branch := match (branchesOf exLib)[0]? with | some b => b | none => ⟨[], [], 0⟩
+theorem bLib_ok : (branchesOf exLib)[0]? = some bLib := by
+  have : ((branchesOf exLib)[0]?).isSome = true := by decide +kernel
+  unfold bLib
+  cases h : (branchesOf exLib)[0]? with
+  | some b => rfl
+  | none => rw [h] at this; cases this
+def rbLib : RBranch Bumps := match gLib.all[0]? with | some b => b | none => ⟨[], [], [], []⟩
+theorem rbLib_ok : gLib.all[0]? = some rbLib := by
+  have : (gLib.all[0]?).isSome = true := by decide +kernel
+  unfold rbLib
+  cases h : gLib.all[0]? with
+  | some b => rfl
+  | none => rw [h] at this; cases this
+theorem bLib_head : bLib.head = 3 := by decide +kernel
+
+theorem anc13 : Anc exLib 1 3 := .step (c := 3) (p := 1) rfl (by simp) (.refl 1)
+
+theorem spec1 : SpecBuild exLib ((branchesOf exLib).take 0) bLib 1 := by
+  refine ⟨Or.inl (by decide), by rw [bLib_head]; exact anc13, ?_⟩
+  intro b' hb'; simp at hb'
+theorem spec3 : SpecBuild exLib ((branchesOf exLib).take 0) bLib 3 := by
+  refine ⟨Or.inl (by decide), by rw [bLib_head]; exact .refl 3, ?_⟩
+  intro b' hb'; simp at hb'
+
+/-- the first parent build pins the build tag of component commit 1 (10.20.2), the second one that of commit 3 -/
+theorem pinsAt0 : PinsAt exApp exLib 2 ((branchesOf exLib).take 0) bLib 0 1 :=
+  ⟨_, _, _, rfl, rfl, rfl, by simp, spec1⟩
+theorem pinsAt1 : PinsAt exApp exLib 2 ((branchesOf exLib).take 0) bLib 1 3 :=
+  ⟨_, _, _, rfl, rfl, rfl, by simp, spec3⟩
+
+theorem pinsAt0_eq {pre : List Branch} {cv : Nat} (hp : PinsAt exApp exLib 2 pre bLib 0 cv) : cv = 1 := by
+  obtain ⟨cm, v, cmv, h1, h2, h3, h4, _⟩ := hp
+  have e1 : cm = ⟨[], [⟨5, 1, 1, 1⟩], false, [(2, (10, 20, 2))], 0⟩ := by
+    have : exApp.commits[0]? = some ⟨[], [⟨5, 1, 1, 1⟩], false, [(2, (10, 20, 2))], 0⟩ := rfl
+    rw [this] at h1; exact (Option.some.inj h1).symm
+  subst e1
+  have e2 : v = (10, 20, 2) := by
+    have : (([(2, (10, 20, 2))] : Pins).lookup 2) = some (10, 20, 2) := rfl
+    rw [this] at h2; exact (Option.some.inj h2).symm
+  subst e2
+  exact exLib_tagsUnique.uniq cv 1 cmv _ _ h3 rfl h4 (by simp)
+
+theorem pinsAt1_eq {pre : List Branch} {cv : Nat} (hp : PinsAt exApp exLib 2 pre bLib 1 cv) : cv = 3 := by
+  obtain ⟨cm, v, cmv, h1, h2, h3, h4, _⟩ := hp
+  have e1 : cm = ⟨[0], [⟨5, 1, 2, 2⟩], false, [(2, (10, 20, 4))], 0⟩ := by
+    have : exApp.commits[1]? = some ⟨[0], [⟨5, 1, 2, 2⟩], false, [(2, (10, 20, 4))], 0⟩ := rfl
+    rw [this] at h1; exact (Option.some.inj h1).symm
+  subst e1
+  have e2 : v = (10, 20, 4) := by
+    have : (([(2, (10, 20, 4))] : Pins).lookup 2) = some (10, 20, 4) := rfl
+    rw [this] at h2; exact (Option.some.inj h2).symm
+  subst e2
+  exact exLib_tagsUnique.uniq cv 3 cmv _ _ h3 rfl h4 (by simp)
+
 
 end Ghist.Ex
